@@ -19,3 +19,16 @@ package absnfs
 //@ pure
 //@ ensures [ok-iff] result == NFS_OK <==> mode < 4096
 //@ ensures [status] result == NFS_OK || result == NFSERR_INVAL
+
+// ---- paths handed to the backend (C07)
+// The operation layer builds every child path with sanitizePath: the result is one fixed function of the
+// directory path and the name, and is produced only for a name without separators that is not "." or "..".
+//@ specdef sanitized(base string, name string) string = toslash(fclean(fjoined(base, name)))
+//@ specdef noSep(name string) bool = forall(i, 0, len(name), name[i] != '/' && name[i] != '\\')
+//@ specdef absTarget(t string) bool = len(t) > 0 && t[0] == '/'
+
+//@ func sanitizePath
+//@ prop C07
+//@ ensures [checked-name] isnil(result1) ==> name != "" && name != "." && name != ".." && noSep(name)
+//@ ensures [one-function] isnil(result1) ==> result0 == sanitized(basePath, name)
+
